@@ -223,6 +223,21 @@ pub fn run_case(case: &mut Case) {
                     .set("verdict", "held"),
             );
         }
+        if ropts.comp.is_none() && o1.is_value() {
+            if let Some((_, _, ledger)) = hk.accepts.last() {
+                if ledger.len() < argv.len() {
+                    case.rep.violation(
+                        "argument-lost-before-parsing",
+                        "ledger",
+                        case.index,
+                        case_json(&spec, &argv)
+                            .set("items_in_state", ledger.len())
+                            .set("arguments", argv.len())
+                            .set("observed", o1.show()),
+                    );
+                }
+            }
+        }
         for m in &hk.ledger_mismatch {
             case.rep.violation(
                 "ledger-mismatch",
